@@ -7,7 +7,7 @@ func init() {
 		Assume: []string{"the reference ranker (harness/cards/ref.go) encodes the rules of poker", "hands with ranks A-9-8-7-6 are left open under the 36-card deck or the short-deck table, as the property says"},
 		Stages: []stage{
 			{Name: "exhaustive", Harness: "cards", Test: "TestC03Exhaustive", Mode: "enum", Shards: 1},
-			{Name: "metamorphic", Harness: "cards", Test: "TestC03Perm", Mode: "rapid", Quick: 8000, Thorough: 400000},
+			{Name: "metamorphic", Harness: "cards", Test: "TestC03Perm", Mode: "rapid", Quick: 16000, Thorough: 1000000},
 		},
 	}
 
@@ -18,8 +18,8 @@ func init() {
 		Assume: vecAssume,
 		Stages: []stage{
 			{Name: "grid", Harness: "pots", Test: "TestVecGrid", Mode: "enum", Shards: 1},
-			{Name: "vectors", Harness: "pots", Test: "TestVecRapid", Mode: "rapid", Quick: 200000, Thorough: 5000000},
-			{Name: "fuzz", Harness: "pots", Test: "FuzzVec", Mode: "fuzz", FuzzSecs: 60, ThoroughOnly: true},
+			{Name: "vectors", Harness: "pots", Test: "TestVecRapid", Mode: "rapid", Quick: 800000, Thorough: 20000000},
+			{Name: "fuzz", Harness: "pots", Test: "FuzzVec", Mode: "fuzz", FuzzSecs: 120, ThoroughOnly: true},
 		},
 	}
 	plans["C16"] = plan{
@@ -28,8 +28,8 @@ func init() {
 		Assume: vecAssume,
 		Stages: []stage{
 			{Name: "grid", Harness: "pots", Test: "TestVecGrid", Mode: "enum", Shards: 1},
-			{Name: "vectors", Harness: "pots", Test: "TestVecRapid", Mode: "rapid", Quick: 200000, Thorough: 5000000},
-			{Name: "fuzz", Harness: "pots", Test: "FuzzVec", Mode: "fuzz", FuzzSecs: 60, ThoroughOnly: true},
+			{Name: "vectors", Harness: "pots", Test: "TestVecRapid", Mode: "rapid", Quick: 800000, Thorough: 20000000},
+			{Name: "fuzz", Harness: "pots", Test: "FuzzVec", Mode: "fuzz", FuzzSecs: 120, ThoroughOnly: true},
 		},
 	}
 
@@ -44,43 +44,43 @@ func init() {
 	tiny := stage{Name: "tiny-games", Harness: "hand", Test: "TestTinyGames", Mode: "enum", Shards: 1}
 	plans["C01"] = plan{Level: "exploration", Assume: handAssume,
 		Rule:   "cases = generated (configuration, deck, play history incl. hostile amounts) driven through the real engine, chip identities checked after every operation; non-trivial = hand with >= 2 distinct positive contribution totals at close, or a stack within 1 chip of a forced amount, or a hostile/refused sized request; distinct = distinct (configuration, operation list)",
-		Stages: []stage{hand(8000, 400000)}}
+		Stages: []stage{hand(40000, 1500000)}}
 	plans["C04"] = plan{Level: "exploration", Assume: handAssume,
 		Rule:   "cases = generated hands with up to 6 negative probes at every wait point (table operation of another phase, action of another seat, unoffered action of the current seat, any action outside a round); every probe must return an error and leave the state JSON (minus updated_at) identical; turn order checked at every turn; non-trivial = hand with at least one probe; counters.probes = probes executed",
-		Stages: []stage{hand(4000, 80000)}}
+		Stages: []stage{hand(16000, 400000)}}
 	plans["C05"] = plan{Level: "exploration", Assume: handAssume,
 		Rule:   "cases = generated hands with tight stacks (raise / short all-in heavy) + every action history of every tiny game (2 seats bankrolls 1..6, 3 seats 1..4; thorough 1..8 / 1..6; blinds 1/2); turn bookkeeping checked at every round closure; non-trivial = hand containing a round with a raise or all-in followed by a further turn",
-		Stages: []stage{tiny, hand(8000, 300000)}}
+		Stages: []stage{tiny, hand(40000, 1500000)}}
 	plans["C06"] = plan{Level: "exploration", Assume: handAssume,
 		Rule:   "cases = generated hands under all policies (the expected step must succeed, streets in order, no state repeats, step bound 16+n(4+E), result exactly at close, probes after close refused) + invalid start configurations + every action history of every tiny game (the DFS terminating with all leaves closed is the finiteness of every path there); non-trivial = hand with >= 2 streets, a fold-out or an all-in run-out; an invalid start",
-		Stages: []stage{tiny, {Name: "start", Harness: "hand", Test: "TestStartValidation", Mode: "rapid", Quick: 4000, Thorough: 100000}, hand(8000, 300000)}}
+		Stages: []stage{tiny, {Name: "start", Harness: "hand", Test: "TestStartValidation", Mode: "rapid", Quick: 10000, Thorough: 200000}, hand(30000, 1200000)}}
 	plans["C07"] = plan{Level: "exploration", Assume: append([]string{"game_id / created_at are copied at the fork; updated_at is ignored"}, handAssume...),
 		Rule:   "cases = generated hands advanced in lockstep on four replicas (in-memory; every call through table.NativeBackend; rebuilt from its own JSON at drawn cut points: never/always/random; an independently started second game); states compared as JSON after every operation, error results compared, backend input checked unmodified; non-trivial = hand with >= 10 compared operations that settled after JSON hops",
-		Stages: []stage{hand(3000, 60000)}}
+		Stages: []stage{hand(10000, 300000)}}
 	plans["C10"] = plan{Level: "exploration", Assume: handAssume,
 		Rule:   "cases = (a) engine hands with themed decks, every seat checked on flop, turn, river and at close against the harness' own enumeration of admissible selections (public evaluator + independent reference ranker); (b) direct calls of GetAllPossibleCombinations on drawn hole/board sets; non-trivial = >= 4 board cards and best category >= pair; counters.evaluations_checked = player evaluations checked",
-		Stages: []stage{{Name: "direct", Harness: "cards", Test: "TestC10Direct", Mode: "rapid", Quick: 20000, Thorough: 400000}, hand(4000, 100000)}}
+		Stages: []stage{{Name: "direct", Harness: "cards", Test: "TestC10Direct", Mode: "rapid", Quick: 60000, Thorough: 1500000}, hand(16000, 500000)}}
 	plans["C11"] = plan{Level: "exploration", Assume: handAssume,
 		Rule:   "cases = generated hands with boundary bankrolls; at every decision point the offered list is compared with the table derived from the statement and the effect of the accepted action is checked; non-trivial = hand with a decision where the stack is within 1 chip of the wager to match, the minimum raise level or the minimum bet",
-		Stages: []stage{hand(8000, 300000)}}
+		Stages: []stage{hand(40000, 1500000)}}
 	plans["C12"] = plan{Level: "exploration", Assume: handAssume,
 		Rule:   "cases = generated hands in which every bet/raise decision draws its amount from all classes (negative, zero, below/at the wager, undersized, minimum, above minimum, at/above the stack, +-2^62); classes:request:* is the histogram; non-trivial = hand with at least one sized request",
-		Stages: []stage{hand(8000, 300000)}}
+		Stages: []stage{hand(60000, 2000000)}}
 	plans["C13"] = plan{Level: "exploration", Assume: handAssume,
 		Rule:   "cases = forced-bet configurations driven Start..PayBlinds: exhaustive grid (n<=4, ante<=2, SB<=2, BB 1..3, dealer blind 0/2, bankrolls 1..5, all buttons, live/dead SB) + rapid G-CFG; non-trivial = a stack within 1 chip of a forced amount it owes",
-		Stages: []stage{{Name: "grid", Harness: "hand", Test: "TestForcedGrid", Mode: "enum", Shards: 1}, {Name: "forced", Harness: "hand", Test: "TestForcedRapid", Mode: "rapid", Quick: 20000, Thorough: 1000000}, hand(2000, 50000)}}
+		Stages: []stage{{Name: "grid", Harness: "hand", Test: "TestForcedGrid", Mode: "enum", Shards: 1}, {Name: "forced", Harness: "hand", Test: "TestForcedRapid", Mode: "rapid", Quick: 60000, Thorough: 3000000}, hand(6000, 150000)}}
 	plans["C14"] = plan{Level: "exploration", Assume: handAssume,
-		Rule:   "cases = generated hands (all endings), card accounting checked after every operation; ShuffleCards on drawn sub-decks; non-trivial = hand that reached the flop; shuffle input of >= 2 cards",
-		Stages: []stage{{Name: "shuffle", Harness: "hand", Test: "TestShuffle", Mode: "rapid", Quick: 5000, Thorough: 100000}, hand(8000, 300000)}}
+		Rule:   "cases = generated hands (all endings), card accounting checked after every operation; ShuffleCards on drawn sub-decks; pairs of hands alive at the same time with decks taken from the engine's constructors and interleaved operations; non-trivial = hand that reached the flop; shuffle input of >= 2 cards; pair of hands with >= 4 switches between them",
+		Stages: []stage{{Name: "shuffle", Harness: "hand", Test: "TestShuffle", Mode: "rapid", Quick: 10000, Thorough: 300000}, {Name: "two-tables", Harness: "hand", Test: "TestTwoTables", Mode: "rapid", Quick: 6000, Thorough: 200000}, hand(40000, 1500000)}}
 	plans["C15"] = plan{Level: "exploration", Assume: handAssume,
 		Rule:   "cases = states of generated hands (every 3rd operation in quick, every one in thorough, always at close) x every viewer seat and the observer; the view's JSON text must contain no secret card string, re-inserting the redacted fields must reproduce the state; non-trivial = hand with a burned card or closed with >= 1 folded and >= 2 shown hands; counters.views = views checked",
-		Stages: []stage{hand(3000, 60000)}}
+		Stages: []stage{hand(6000, 150000)}}
 	c02 := plans["C02"]
-	c02.Stages = append(c02.Stages, stage{Name: "hands", Harness: "hand", Test: "TestHand", Mode: "rapid", Quick: 4000, Thorough: 80000})
+	c02.Stages = append(c02.Stages, stage{Name: "hands", Harness: "hand", Test: "TestHand", Mode: "rapid", Quick: 16000, Thorough: 400000})
 	c02.Assume = append(c02.Assume, handAssume...)
 	plans["C02"] = c02
 	c16 := plans["C16"]
-	c16.Stages = append(c16.Stages, stage{Name: "hands", Harness: "hand", Test: "TestHand", Mode: "rapid", Quick: 4000, Thorough: 80000})
+	c16.Stages = append(c16.Stages, stage{Name: "hands", Harness: "hand", Test: "TestHand", Mode: "rapid", Quick: 16000, Thorough: 400000})
 	c16.Assume = append(c16.Assume, handAssume...)
 	plans["C16"] = c16
 
@@ -94,13 +94,13 @@ func init() {
 	reach := stage{Name: "reachable-states", Harness: "seats", Test: "TestReachableStates", Mode: "enum", Shards: 1}
 	plans["C08"] = plan{Level: "exploration", Assume: seatAssume,
 		Rule:   "cases = (a) every transition from every seat-manager state reachable with <= 4 seats (thorough 5), each path re-executed on the real implementation; (b) rapid histories on 2..10 seats; (c) newcomer-between scenarios (k seated players, j hands, a newcomer on a drawn empty seat strictly between dealer and big blind, then 2*max hands); non-trivial = Next() success with a non-playable seat among the first three clockwise from the dealer; scenario with a valid in-between seat",
-		Stages: []stage{reach, hist(200000, 4000000), {Name: "newcomer", Harness: "seats", Test: "TestNewcomerBetween", Mode: "rapid", Quick: 60000, Thorough: 1000000}}}
+		Stages: []stage{reach, hist(500000, 12000000), {Name: "newcomer", Harness: "seats", Test: "TestNewcomerBetween", Mode: "rapid", Quick: 150000, Thorough: 3000000}}}
 	plans["C17"] = plan{Level: "exploration", Assume: seatAssume,
 		Rule:   "cases = every transition from every reachable state with <= 4 seats (thorough 5) + rapid histories; at every Next(): button = first seat able to play clockwise after the old dealer, refusal exactly with the insufficient-players error; non-trivial = Next() where the old dealer can no longer play or an occupied non-playable seat lies between old and new dealer",
-		Stages: []stage{reach, hist(300000, 5000000)}}
+		Stages: []stage{reach, hist(600000, 15000000)}}
 	plans["C18"] = plan{Level: "exploration", Assume: append([]string{"the goroutine schedule of the race stage is not owned by the harness (stress + race detector)"}, seatAssume...),
 		Rule:   "cases = every transition from every reachable state with <= 4 seats (thorough 5) + rapid histories with out-of-range ids (occupancy model, recover() around every call) + concurrent-join cases under the race detector (drawn table size, 2..32 goroutines, specific/any targets, pre-seated players); non-trivial = history with a failed join and a leave; race case with more goroutines than free seats",
-		Stages: []stage{reach, hist(300000, 5000000), {Name: "join-race", Harness: "seats", Test: "TestJoinRace", Mode: "race", Race: true, Quick: 3000, Thorough: 40000}}}
+		Stages: []stage{reach, hist(600000, 15000000), {Name: "join-race", Harness: "seats", Test: "TestJoinRace", Mode: "race", Race: true, Quick: 6000, Thorough: 150000}}}
 
 	mttAssume := []string{
 		"tables follow the regulator's instructions: new players are seated, exactly the requested number of players is released through ReleasePlayers, a broken table hands everybody back (what the repository's own tests do)",
@@ -113,11 +113,11 @@ func init() {
 	grid := stage{Name: "settings-grid", Harness: "mtt", Test: "TestSettingsGrid", Mode: "enum", Shards: 1}
 	plans["C09"] = plan{Level: "exploration", Assume: mttAssume,
 		Rule:   "cases = tournament histories over a world model (settings 2<=min<=max<=10, a third at the default 9/6; AddPlayers batches 0..3*max, status steps, SyncState with eliminations on drawn tables, unknown-table calls, registrations after the deadline) with membership and counters checked after every call, + the settings grid; non-trivial = history with at least one sync that released, received or broke",
-		Stages: []stage{grid, mh(40000, 1000000)}}
+		Stages: []stage{grid, mh(120000, 4000000)}}
 	plans["C19"] = plan{Level: "exploration", Assume: mttAssume,
 		Rule:   "cases = the complete settings grid (2<=min<=max<=10, 0..6*max registrants, all at once before the start / one by one / in batches of 3 / of max after it; 3 repetitions each because of map order) + tournament histories; capacity and start conditions are checked inside the callbacks; non-trivial = settings other than 9/6 with >= 2 tables opened",
-		Stages: []stage{grid, mh(40000, 1000000)}}
+		Stages: []stage{grid, mh(120000, 4000000)}}
 	plans["C20"] = plan{Level: "exploration", Assume: mttAssume,
 		Rule:   "cases = from the end state of every generated history (and every grid point) sweeps of SyncState(t,0) over all tables in a drawn order, instructions carried out, until a sweep asks for nothing; bound max(20, 2*tables+10) sweeps; non-trivial = settling run with at least one move; classes sweeps-to-settle:N = distribution of the number of sweeps needed",
-		Stages: []stage{grid, mh(40000, 1000000)}}
+		Stages: []stage{grid, mh(120000, 4000000)}}
 }
